@@ -67,7 +67,7 @@ def r13_1(ctx):
 
         def on_stmt(st, p: Path, loops, _t=target):
             if any(x is _t for x in ast.walk(st) if not isinstance(st, (ast.If, ast.For, ast.While, ast.Try)) or True) and \
-                    any(x is _t for x in (ast.walk(st.items[0].context_expr) if isinstance(st, ast.With) else ast.walk(st))):
+                    any(x is _t for x in ([y for it in st.items for y in ast.walk(it.context_expr)] if isinstance(st, ast.With) else ast.walk(st))):
                 p.events.append(("OPEN", st.lineno, None))
 
         paths = Enumerator(on_stmt, max_iter=1).run(f.node.body, Path())
@@ -341,5 +341,29 @@ def r13_4(ctx):
              "not in <destination>.old", s.loc(calls[0]) if calls else s.loc()))
 
 
+def r13_5(ctx):
+    """R13.5 the backup is never switched off by a caller inside the packages: every call of Kconfig.write_config() leaves
+    `save_old` at its default (or passes True). kconfgen's wrapper is also the config server's `save`, which overwrites
+    the user's sdkconfig in place - without the `.old` copy a crash after the truncating open leaves no complete file."""
+    repo = ctx.repo
+    n = 0
+    for m in sorted(repo.modules):
+        for f in repo.funcs_in(m):
+            for c in ast.walk(f.node):
+                if isinstance(c, ast.Call) and isinstance(c.func, ast.Attribute) and c.func.attr == "write_config":
+                    n += 1
+                    kw = {k.arg: k.value for k in c.keywords if k.arg}
+                    construct = f"{f.short}/{ast.unparse(c.func)}(...) keeps the backup"
+                    so = kw.get("save_old")
+                    if so is None and len(c.args) >= 3 and "config.write_config" not in ast.unparse(c.func):
+                        so = None
+                    if so is not None and not (isinstance(so, ast.Constant) and so.value is True):
+                        ctx.bad(construct, f"save_old={ast.unparse(so)}: the previous configuration is not kept while the destination is rewritten", f.loc(c))
+                    else:
+                        ctx.ok(construct, f.loc(c), nontrivial=False)
+    if n < 3:
+        raise AnalysisError(f"only {n} write_config call sites found")
+
+
 def rules():
-    return [("R13.1", r13_1, 6), ("R13.1b", r13_1b, 2), ("R13.2", r13_2, 4), ("R13.3", r13_3, 4), ("R13.4", r13_4, 3)]
+    return [("R13.5", r13_5, 3), ("R13.1", r13_1, 6), ("R13.1b", r13_1b, 2), ("R13.2", r13_2, 4), ("R13.3", r13_3, 4), ("R13.4", r13_4, 3)]
